@@ -104,10 +104,21 @@ func (s *Session) collect(prop string) *propRun {
 			continue
 		}
 		n := 0
-		for _, ob := range vc.obs {
+		last := -1
+		for i, ob := range vc.obs {
+			if hasProp(ob.Props, prop) {
+				n++
+				last = i
+			}
+		}
+		for i, ob := range vc.obs {
 			if hasProp(ob.Props, prop) {
 				pr.obs = append(pr.obs, ob)
-				n++
+			} else if ob.Assumed && i < last {
+				// an obligation of another property that is assumed once asserted: the obligations of this property
+				// that follow it in the same function rely on it, so its failure must not go unreported here
+				ob.Kind = "supporting:" + strings.TrimPrefix(ob.Kind, "supporting:")
+				pr.obs = append(pr.obs, ob)
 			}
 		}
 		if n > 0 {
@@ -176,7 +187,9 @@ func cmdCheck(prop, tier string, jobs int) int {
 	}
 	var knownRes []knownRe
 	for _, k := range known {
-		if k.Property == prop && k.Status == "known" {
+		// a finding recorded for another property also explains the failure of the same obligation where it merely
+		// supports this property's obligations
+		if k.Status == "known" {
 			if k.Regex != "" {
 				re, err := regexp.Compile("^(?:" + k.Regex + ")$")
 				if err != nil {
